@@ -504,19 +504,14 @@ SMT_SERVES = {"C32", "C07", "C22", "C20", "C21", "C05", "C10", "C09", "C08", "C3
 # --------------------------------------------------------------------------- not applicable (reason shown in MANIFEST.json)
 NOT_APPLICABLE = {
     "C01": "whole-transaction equivalence with the execution specification needs symbolic execution of interpreter + call loop + journal + hash maps against a reference EVM; a single journaled transfer+revert already exhausts CBMC (DESIGN §2), and no reference implementation exists to encode. Its kernels are claimed under C02-C05, C09-C14.",
-    "C06": "the property is about JournaledState::checkpoint_revert over arbitrary operation sequences; the journal is Vec<Vec<JournalEntry>> over std HashMap state: checkpoint+revert of an EMPTY journal already runs CBMC out of memory (symex 110 s, then OOM; transfer+revert: no answer in 900 s, DESIGN §2). The map stand-in hook that might have helped was not built (DESIGN §3). The no-mutation-before-failure mechanism is decided for transfer under C08.",
-    "C15": "histories of committed transactions over CacheState/State (nested std HashMaps fed by EVM output): two inserts and a lookup on a std HashMap give no answer in 600 s in CBMC (DESIGN §2); no kernel smaller than the whole structure carries the property.",
-    "C16": "bundle changesets over histories of transitions (BundleState/TransitionState: nested hash maps, merge schedules): not encodable for the same measured reason as C15.",
+    "C16": "bundle changesets over histories of transitions: apply_transitions_and_create_reverts / to_plain_state / TransitionAccount::update loop over nested std HashMaps (accounts x storage) - two inserts and a lookup on a std HashMap give no answer in 600 s in CBMC (DESIGN §2), and the provenance-flow encoder decides one loop-free step, not a merge schedule; the per-account commit step that feeds the transitions is decided under C15.",
     "C17": "per-group reverts of BundleAccount/Reverts over histories with destroy/recreate sequences: hash-map storage plus an 8-state status machine whose valid (bundle status, transition status) pairs are defined only by the producer (CacheAccount) over histories; the single-account round-trip stretch was not attempted (hashbrown iteration/drain even on empty maps, status/info consistency preconditions).",
-    "C18": "extend / take_n_reverts / prepend_state over whole bundles (hash maps of accounts and reverts, histories and split points): not encodable, see C15.",
-    "C19": "State over a preloaded bundle versus the merged plain state for all histories: whole-structure equivalence over hash maps, see C15.",
+    "C18": "extend / take_n_reverts / prepend_state over whole bundles (hash maps of accounts and reverts, histories and split points): loops over nested hash maps on both operands, out of reach for CBMC (DESIGN §2) and not a single-step statement the provenance-flow encoder could carry.",
+    "C19": "State over a preloaded bundle versus the merged plain state for all histories: a whole-structure equivalence over hash maps; only the lookup order of one read (cache, then preloaded bundle, then database) is decided, under C15 (load_cache_account, code_by_hash).",
     "C24": "both halves compare C libraries behind FFI (libsecp256k1, c-kzg) with pure-Rust field/curve arithmetic (k256, kzg-rs): FFI cannot be encoded and 256/381-bit modular multiplication chains are far beyond bit-blasting; the Kani build of the precompile crate has neither C backend.",
     "C25": "`any bytecode, any gas, terminates memory-safely` is a whole-interpreter run through a table of 256 function pointers (CBMC crashes on it, DESIGN §2) with data-dependent loops. Only kernels are decidable and are decided where they live, with CBMC's pointer checks on: stack copies (C12), memory slices (C11), jump targets and the analysis walk (C04), PUSHn reads inside the padded buffer (harness c25::*, kept as a kernel and listed in DESIGN §5) - they do not add up to the property, so it is not claimed.",
     "C26": "Eof::decode on 20 symbolic bytes (the minimal container) is 15.7 M variables / 68 M clauses and does not finish in 298 s with CaDiCaL or kissat; header decode+encode round trip hits 12 GB after 121 s: CBMC does not constant-propagate the slice lengths and unrolls every decoder loop to the bound (numbers in lib/fragments/NOTES_c27.md). The validation=>no-panic half is a whole-program statement.",
-    "C28": "a differential over whole transactions with and without an inspector through boxed instruction tables and handler closures; inspector_instruction is private and only reachable through the full handler. The per-closure push/pop balance of the inspector register is decided under C29.",
-    "C30": "the SELFDESTRUCT notification is emitted by a closure that wraps the boxed instruction and infers the event from journal.last(); observing it needs a full Context, the instruction table and the journal (hash maps). By reading, the wrapper is silent for a Cancun self-target and can fire after a failed SELFDESTRUCT following a value transfer (DESIGN §6, noted only).",
     "C33": "needs the `optimism` feature build of the handler (L1 block info loaded from storage, deposit handling across handler closures) plus whole transactions; the L1-cost helper functions alone do not carry the conservation statement. The harness crate is built without the optimism feature.",
-    "C34": "cold/warm status lives in the journal's hash maps (state, per-account storage, warm_preloaded_addresses) and its forgetting on revert is journal_revert: both out of reach for CBMC (DESIGN §2), the map stand-in hook was not built (DESIGN §3). The price side (warm/cold costs per fork) is decided under C14.",
 }
 
 
